@@ -140,3 +140,69 @@ func VC05_Step() {
 	rt.Assert(rr.index >= 0, "invariant: index stays non-negative")
 	rt.Reach("end")
 }
+
+// VC05_Racing: a dispatch races with a membership change made from another thread, through the
+// real message loop (the pool notifies the proxy of the change while it holds its lock; the loop
+// takes the same lock to dispatch). Whatever the order: the change returns, the request reaches a
+// backend registered at that moment, and the next requests keep rotating over the new set.
+func VC05_Racing() {
+	rt.SchedPolicy(rt.Choice("sched-policy", 2))
+	rt.SelectChoice(true)
+	w := newWorld(worldOpts{nBackends: 2})
+	extra := &vBackend{addr: "10.0.1.3:5060"}
+	add := rt.Bool("add")
+	req := func(i int) string {
+		return "OPTIONS sip:u@" + wService + " SIP/2.0\r\nVia: SIP/2.0/UDP 10.0.2.2:5060;branch=z9hG4bKr" + itoa(i) + "\r\nFrom: <sip:alice@example.com>;tag=a\r\nTo: <sip:u@" + wService +
+			">\r\nCall-ID: r" + itoa(i) + "\r\nCSeq: 1 OPTIONS\r\nContent-Length: 0\r\n\r\n"
+	}
+	done := make(chan bool, 1)
+	m0, _ := parseText(req(0))
+	changeFirst := rt.Bool("change-started-first")
+	change := func() {
+		if add {
+			w.rr.AddBackend(extra)
+		} else {
+			w.rr.RemoveBackend(w.bs[0].addr)
+		}
+		done <- true
+	}
+	if changeFirst {
+		go change()
+	}
+	w.p.HandleRawMessage(NewRawMessage("10.0.2.2", 5060, w.listener, true, m0))
+	if !changeFirst {
+		go change()
+	}
+	rt.Quiesce()
+	rt.Assert(len(done) == 1, "racing: the membership change returns")
+	all := append(append([]*vBackend{}, w.bs...), extra)
+	total := 0
+	for _, b := range all {
+		total += len(b.sent)
+	}
+	rt.Assert(total == 1, "racing: the request reaches exactly one backend")
+	if !add {
+		// (the removed backend may still have received the racing request)
+		rt.Assert(len(w.bs[0].sent) <= 1, "racing: nothing is sent twice")
+	}
+	// afterwards the rotation runs over the new set: n further requests reach each member once
+	members := []*vBackend{w.bs[1]}
+	if add {
+		members = []*vBackend{w.bs[0], w.bs[1], extra}
+	}
+	before := make([]int, len(members))
+	for i, b := range members {
+		before[i] = len(b.sent)
+	}
+	removedBefore := len(w.bs[0].sent)
+	for i := 0; i < len(members); i++ {
+		rt.Assert(w.deliver(req(i+1), "10.0.2.2", 5060, true), "request decodes")
+	}
+	for i, b := range members {
+		rt.Assert(len(b.sent) == before[i]+1, "racing: afterwards every current backend gets its turn")
+	}
+	if !add {
+		rt.Assert(len(w.bs[0].sent) == removedBefore, "racing: the removed backend receives nothing further")
+	}
+	rt.Reach("end")
+}
